@@ -75,7 +75,7 @@ DeclClose == /\ NoSemi /\ Step /\ open # <<>>
                                    EXCEPT ![Last(open)].cb = ve, ![Last(open)].e = ve + 1]
                      /\ evs' = evs \o <<Ev("propertyName", L, ne, ne), Ev("propertyValue", vs, ve, ve), Ev("blockEnd", ve, ve + 1, ve)>>
              /\ open' = Front(open) /\ UNCHANGED hasF16
-Filler == Step /\ (\E t \in Fillers : doc' = doc \o (IF t = "NL" THEN "\n  " ELSE t)) /\ UNCHANGED <<nodes, evs, open, hasF16>>
+Filler == Step /\ (\E t \in Fillers : doc' = doc \o (IF t = "NL" THEN "\n  " ELSE IF t = "C2" THEN "/** x } **/" ELSE IF t = "C3" THEN "/***/" ELSE t)) /\ UNCHANGED <<nodes, evs, open, hasF16>>
 Next == OpenRule \/ CloseRule \/ Decl \/ DeclClose \/ Filler
 Spec == Init /\ [][Next]_vars
 Complete == open = <<>> /\ nseg > 0
